@@ -257,6 +257,24 @@ def _copula_job(args):
     return (group, template, outs)
 
 
+NOUNS = ['class', 'bus', 'address', 'process', 'box', 'match', 'city', 'glass', 'dish', 'truck', 'waitress', 'boss', 'lens', 'gas', 'virus',
+         'status', 'bonus', 'campus', 'atlas', 'leaf', 'person', 'child', 'tax', 'quiz', 'hero', 'day', 'key', 'analysis', 'node', 'movie']
+
+
+def _noun_job(noun):
+    """singular vs plural of a concept noun (every plural morphology: -s, -es after sibilants, -ies, -ves, irregular) in a
+    quantified subject and inside an aggregate"""
+    import inflect
+    pl = inflect.engine().plural(noun)
+    outs = {}
+    for w in (noun, pl):
+        t = (f'A {noun} is identified by an id.\nA color is identified by an id.\nEvery {w} can be assigned to exactly 1 color.\n'
+             f'It is prohibited that the number of {w} that are assigned to color C is more than 2, whenever there is a color C.\n')
+        r = rt.compile_cnl(t)
+        outs[w] = rt.norm_uuid(r[1]) if r[0] == 'ok' else f'ERR {str(r[1])[:200]}'
+    return (noun, pl, outs)
+
+
 def _verb_job(args):
     word, prep = args
     text = ('A node is identified by an id.\nA color is identified by an id.\n'
@@ -311,6 +329,15 @@ def main(tier):
             odd = [(c, o) for o, cs in vals.items() if cs is not big for c in cs]
             run.violation(f'copula/{group[0].split()[0]}', f'auxiliary spellings {[c for c, _ in odd]} compile differently from {big}: {odd[0][1][-150:]!r}',
                           {'template': template, 'outputs': outs})
+    # ---- noun grid: singular / plural of concept nouns of every plural morphology --------------
+    for noun, pl, outs in rt.pmap(_noun_job, NOUNS, chunksize=2):
+        run.count(('noun', noun))
+        if outs[noun].startswith('ERR'):
+            run.note(f'noun grid: the singular form of {noun!r} does not compile: {outs[noun][:100]}')
+            continue
+        if noun != pl and outs[noun] != outs[pl]:
+            run.violation(f'plural/{noun}', f"'{pl}' in place of '{noun}' compiles differently: {outs[pl][-200:]!r}",
+                          {'noun': noun, 'plural': pl, 'outputs': outs})
     # ---- search -------------------------------------------------------------------------
     n_par = 6 if tier == 'quick' else 20
     jobs = []
